@@ -148,6 +148,44 @@ def run(ctx, driver):
                                   [prevh[1], h], "scale_to_hertz strictly increasing",
                                   tags=dict(scale=name, clause="mono_s2h"))
             prevh = (s, h)
+    # instance churn: scales built one after another, each dropped before the next is built (CPython hands the freed
+    # address - `id()` - to the next object), evaluated at the same frequencies: a map depends on its object's
+    # parameters only, never on what an earlier object computed
+    churn = [("octave", [440.0]), ("octave", [55.0]), ("linear", [20.0, 0.5]), ("linear", [0.0, 3.0]), ("octave", [110.0]),
+             ("linear", [20.0, 0.25]), ("octave", [27.5]), ("linear", [-5.0, 3.0])] * 3
+    pts = [55.0, 439.0, 440.0, 441.0, 1000.0, 20.0]
+    keep = {}
+    for name, params in churn:   # long-lived references, one per parameter set
+        k = (name, tuple(params))
+        if k not in keep:
+            keep[k] = (S.OctaveScaling if name == "octave" else S.LinearScaling)(*params)
+    import gc
+    for name, params in churn:
+        o = (S.OctaveScaling if name == "octave" else S.LinearScaling)(*params)
+        ref = keep[(name, tuple(params))]
+        for f in pts:
+            if name == "octave" and f < params[0]:
+                continue
+            case = dict(scale=name, params=params, hertz=f, churn=True)
+            ctx.case(case, kind="churn:" + name)
+            try:
+                s = float(o.hertz_to_scale(f))
+                back = float(o.scale_to_hertz(s))
+                s_ref = float(ref.hertz_to_scale(f))
+                back_ref = float(ref.scale_to_hertz(s_ref))
+            except Exception as e:
+                ctx.violation(case, "a number", "%s: %s" % (type(e).__name__, e), "the maps are defined on the whole domain",
+                              tags=dict(scale=name, clause="raises"))
+                continue
+            cases.append((name + "_h2s", params, f, s))
+            cases.append((name + "_s2h", params, s, back))
+            if not (abs(back - f) <= 1e-9 * max(1.0, abs(f))):
+                ctx.violation(case, f, back, "scale_to_hertz(hertz_to_scale(f)) == f", tags=dict(scale=name, clause="left_inv"))
+            if s != s_ref or back != back_ref:
+                ctx.violation(case, [s_ref, back_ref], [s, back], "two scales with the same parameters compute the same values "
+                              "(whatever other scale objects existed before)", tags=dict(scale=name, clause="instance_independent"))
+        del o
+        gc.collect()
     # integer-typed arguments are legal Python numbers: the maps must not depend on the argument's type
     for name, params, o in objs:
         for v in (0, 1, 2, 3, 20, 21, 24, 100, 1000):
